@@ -285,7 +285,7 @@ func C03(c *vh.Ctx) {
 	c.Bound("pattern_nodes_max", pmax)
 	c.Bound("message_nodes_max", mmax)
 	c.Bound("deviating_range_executions_max", bound)
-	c.Rule("the C01 triple space at the stated size, plus patterns that use one variable at several places against structured values, array patterns whose structured elements fit several message elements next to an element or variable that depends on which was taken, and patterns that are invalid at one key and merely non-matching at another; for every triple every combination of map-iteration orders with at most k deviating range executions (every `range` over a map in package match is routed through vrange.Keys; all n! orders for n<=4) - the canonical result multiset and the success/error outcome must be the same in all of them; deep snapshots of pattern, message and bindings before/after; returned maps must be distinct objects, independent of the given bindings and of each other; a pattern map that was matched and then edited in place (same size) must match like a freshly built equal map. Race pass (separate -race binary): the same argument objects matched from 3 goroutines with no synchronisation, results equal to the sequential one, ThreadSanitizer silent. states = triples with more than one order, transitions = executions; non-trivial = more than one order explored.")
+	c.Rule("the C01 triple space at the stated size, plus patterns that use one variable at several places against structured values, array patterns whose structured elements fit several message elements next to an element or variable that depends on which was taken, patterns that are invalid at one key and merely non-matching at another, nulls and constant strings with question marks, and map patterns in which two or three properties each admit several candidates; for every triple every combination of map-iteration orders with at most k deviating range executions (every `range` over a map in package match is routed through vrange.Keys; all n! orders for n<=4) - the canonical result multiset and the success/error outcome must be the same in all of them; deep snapshots of pattern, message and bindings before/after; returned maps must be distinct objects, independent of the given bindings and of each other; a pattern map that was matched and then edited in place (same size) must match like a freshly built equal map. Race pass (separate -race binary): the same argument objects matched from 3 goroutines with no synchronisation, results equal to the sequential one, ThreadSanitizer silent. states = triples with more than one order, transitions = executions; non-trivial = more than one order explored.")
 	var all []c03Case
 	for _, p := range ps.UpTo(pmax) {
 		bs := bindingsFor(p)
@@ -299,6 +299,9 @@ func C03(c *vh.Ctx) {
 		}
 	}
 	all = append(all, c03Extra()...)
+	for _, cs := range append(qmCases(), multiSetCases()...) {
+		all = append(all, c03Case{P: cs.P, M: cs.M, B: cs.B})
+	}
 	if c.Shard == 0 {
 		c.Count("triples", int64(len(all)))
 	}
